@@ -143,3 +143,32 @@ Fixpoint contiguous (t : Z) (cs : list chunk) : Prop :=
   | [] => True
   | c :: r => c_samples c = stamped t (c_samples c) /\ contiguous (t + chunk_span c) r
   end.
+
+(** ** What a client reads from the body.  A fragment stores the decode time of its first sample
+    (tfdt, set by [AddFullSample] when the trun is still empty) and the sample durations; the
+    decode times of the following samples are derived from them. *)
+Definition chunk_tfdt (c : chunk) : Z := match c_samples c with s :: _ => s_dt s | [] => 0 end.
+Definition parse_chunk (c : chunk) : list sample := stamped (chunk_tfdt c) (c_samples c).
+Definition parse_body (cs : list chunk) : list sample := flat_map parse_chunk cs.
+
+(** ** Whole-segment mode ([genLiveSegment], non-audio): the fragments of the VoD segment keep
+    their samples, every tfdt is shifted by [timeShift := meta.newTime - tfdt of the first fragment]
+    (uint64 arithmetic); [chunkSegment] receives the samples of all fragments. *)
+Record frag := { f_tfdt : Z; f_samples : list sample }.
+
+Definition whole_parse (newTime : Z) (frags : list frag) : list sample :=
+  match frags with
+  | [] => []
+  | f0 :: _ =>
+    let timeShift := u64 (newTime - f_tfdt f0) in
+    flat_map (fun f => stamped (u64 (f_tfdt f + timeShift)) (f_samples f)) frags
+  end.
+
+Definition frag_samples (frags : list frag) : list sample := flat_map f_samples frags.
+
+(** every fragment of the VoD segment starts where the previous one ended *)
+Fixpoint frags_contiguous (t : Z) (frags : list frag) : Prop :=
+  match frags with
+  | [] => True
+  | f :: r => f_tfdt f = t /\ frags_contiguous (t + sum_durs (f_samples f)) r
+  end.
